@@ -15,8 +15,10 @@ def project():
     f["src/uses.f90"] = ("module base\nend module base\nmodule left\n  use base\nend module left\nmodule right\n  use base\nend module right\n"
                          "module top\n  use left\n  use right\n  use quiet\nend module top\nmodule quiet\n  !! graph: false\n  use base\nend module quiet\n")
     f["src/types.f90"] = ("module types\n  implicit none\n  type :: t0\n    integer :: a\n  end type t0\n  type, extends(t0) :: t1\n  end type t1\n  type, extends(t1) :: t2\n    type(t0) :: comp\n  end type t2\n"
-                          "  type :: alpha\n  contains\n    procedure :: ei\n    generic :: g => ei\n  end type alpha\ncontains\n  subroutine ei(self)\n    class(alpha) :: self\n    call eight()\n  end subroutine ei\n"
-                          "  subroutine eight()\n  end subroutine eight\n  subroutine foo()\n    type(alpha) :: y\n    call y%g()\n  end subroutine foo\nend module types\n")
+                          "  type :: alpha\n  contains\n    procedure :: ei\n    generic :: g => ei\n    procedure :: init => init_a\n  end type alpha\n  type :: beta\n  contains\n    procedure :: init => init_b\n  end type beta\ncontains\n  subroutine ei(self)\n    class(alpha) :: self\n    call eight()\n  end subroutine ei\n"
+                          "  subroutine eight()\n  end subroutine eight\n  subroutine foo()\n    type(alpha) :: y\n    call y%g()\n  end subroutine foo\n"
+                          "  subroutine init_a(self)\n    class(alpha) :: self\n  end subroutine init_a\n  subroutine init_b(self)\n    class(beta) :: self\n  end subroutine init_b\n"
+                          "  subroutine two_inits()\n    type(alpha) :: ya\n    type(beta) :: yb\n    call ya%init()\n    call yb%init()\n  end subroutine two_inits\nend module types\n")
     # a parent type with a derived-type component, extended twice: composition belongs to the type that declares the component
     f["src/holders.f90"] = ("module holders\n  use types\n  implicit none\n  type :: holder\n    type(t0) :: kept\n  end type holder\n  type, extends(holder) :: h1\n  end type h1\n"
                             "  type, extends(h1) :: h2\n    integer :: own\n  end type h2\nend module holders\n")
@@ -51,6 +53,12 @@ def exact_relations(gm):
     want = {(a, b) for a, b in FILE_EDGES if a != b}
     if got != want:
         bad.append(f"project file graph: unexpected edges {sorted(got - want)}, missing edges {sorted(want - got)} (a file depends on the files of the modules used anywhere inside it)")
+    # a caller that invokes bindings of the same name on objects of two types calls two procedures
+    for e in gm.graph_objs:
+        if e.name == "two_inits" and hasattr(e, "callsgraph"):
+            got = {b for a, b in edges_of(e.callsgraph) if a == "two_inits"}
+            if got != {"init_a", "init_b"}:
+                bad.append(f"calls graph of two_inits: edges to {sorted(got)}, expected to init_a (alpha%init) and init_b (beta%init)")
     got = edges_of(gm.usegraph)
     if got != USE_EDGES:
         bad.append(f"project module graph: unexpected edges {sorted(got - USE_EDGES)}, missing edges {sorted(USE_EDGES - got)}")
@@ -119,6 +127,14 @@ def check(proj, gm, maxdepth, maxnodes):
             for (n2, c2, g2), (nodes2, edges2, gg) in per_entity.items():
                 if g2 == inv and gg.root[0].ident == b and gg.truncated != 1 and (a, b) not in edges2:
                     bad.append(f"{gname} of {name} has {a} -> {b} but {inv} of {n2} lacks it")
+    # depth limit: the calls graph of p1 (chain p1 -> p2 -> ... -> p5 -> p1) and the used-by graph of `base` hold exactly the entities within graph_maxdepth hops
+    if maxnodes > 1000 and maxdepth < 5:
+        for (name, cls, gname), (nodes, edges, g) in per_entity.items():
+            if name == "p1" and gname == "callsgraph":
+                want = {f"p{i}" for i in range(1, min(5, 1 + maxdepth) + 1)}
+                got = {n.split("~")[-1] for n in nodes}
+                if got != want:
+                    bad.append(f"calls graph of p1 with graph_maxdepth = {maxdepth}: nodes {sorted(got)}, expected the procedures within {maxdepth} hops {sorted(want)}")
     if any(e.name in ("lonely", "quiet") for e in gm.graph_objs):
         bad.append("entity with `graph: false` was registered for graphs")
     # ... and has no node in the project-wide graphs either, although other entities refer to it
